@@ -220,6 +220,11 @@ EXPORT int snwprintf_s(wchar_t *restrict dest, rsize_t dmax,
         handle_werror(dest, dmax, errstr, -ret);
         return ret;
     }
+#ifdef SAFECLIB_STR_NULL_SLACK
+    else {
+        memset(&dest[ret], 0, (dmax - ret) * sizeof(wchar_t));
+    }
+#endif
 #endif
 
     return ret;
